@@ -135,7 +135,7 @@ func corrupt(r *rng, c *certs.FinalityCertificate) (*certs.FinalityCertificate, 
 }
 
 func runC16(o *out, r *rng, thorough bool, replay string) {
-	o.Rule = "server: real certexchange.Server over libp2p mocknet, raw wire requester, (first,limit,powertable) incl. boundary/overflowing values; client/poller: real Client/Poller against a scripted malicious responder (forged, reordered, duplicated, truncated, mis-advertised pending); non-trivial = store has >=3 certs and request != (0,NoLimit), or responder deviates from honest; plus polls during which the first requested certificate is stored locally while the request is in flight and the honest response carries it and its successors"
+	o.Rule = "server: real certexchange.Server over libp2p mocknet, raw wire requester, (first,limit,powertable) incl. boundary/overflowing values; client/poller: real Client/Poller against a scripted malicious responder (forged, reordered, duplicated, truncated, mis-advertised pending); non-trivial = store has >=3 certs and request != (0,NoLimit), or responder deviates from honest; plus polls during which the first requested certificate is stored locally while the request is in flight and the honest response carries it and its successors (in a third of them followed by a corrupted certificate of the next instance)"
 	ctx, cancel := context.WithCancel(context.Background())
 	defer cancel()
 	ctx, _ = clock.WithMockClock(ctx)
